@@ -632,6 +632,27 @@ pub fn small_pairs(max_keys: usize, long_len: usize) -> BoxedStrategy<Pairs> {
         .boxed()
 }
 
+/// Keys over a tiny alphabet but long (17..300 bytes): deep stacks, key
+/// buffers beyond their initial capacities.
+pub fn with_long_keys() -> BoxedStrategy<Pairs> {
+    vec((vec(prop_oneof![Just(b'a'), Just(b'b'), Just(b'c')], 0..=3), prop_oneof![Just(17usize), Just(64), Just(65), Just(255), Just(256), 17usize..300], vec(prop_oneof![Just(b'a'), Just(b'b')], 0..=3), value_strategy()), 1..12)
+        .prop_map(|v| {
+            sort_dedup(
+                v.into_iter()
+                    .map(|(head, len, tail, val)| {
+                        let mut k = head;
+                        while k.len() < len {
+                            k.push(b'a' + (k.len() % 2) as u8);
+                        }
+                        k.extend_from_slice(&tail);
+                        (k, val)
+                    })
+                    .collect(),
+            )
+        })
+        .boxed()
+}
+
 pub const HOOK_GEOMS: [(usize, usize); 12] = [
     (1, 1),
     (1, 2),
